@@ -388,6 +388,9 @@ DECIMAL_OK = z3.Concat(_SIGN, z3.Union(z3.Concat(_DS, z3.Option(z3.Concat(_DOT, 
 #: int(str) accepts (restricted to PLAIN): [sign] digits
 INT_OK = z3.Concat(_SIGN, _DS)
 FLOAT_OK = DECIMAL_OK
+#: what the lexer's numeral group [0-9.]+ can contain and the converters accept
+DECIMAL_OK_UNSIGNED = z3.Union(z3.Concat(_DS, z3.Option(z3.Concat(_DOT, z3.Star(_D)))), z3.Concat(_DOT, _DS))
+INT_OK_UNSIGNED = _DS
 
 dec_val = z3.Function("dec_val", z3.StringSort(), z3.RealSort())
 dec_norm_str = z3.Function("dec_norm_str", z3.StringSort(), z3.StringSort())
@@ -427,9 +430,12 @@ class SymNum:
             raise EngineUnsupported("normalize on int")
         return SymNum("dec", self.src, True, self.val)
 
+    def __getattr__(self, k):
+        if k.startswith("__") and k.endswith("__"):
+            raise AttributeError(k)
+        raise EngineUnsupported("%s number method .%s is not modelled" % (self.kind, k))
+
     def __vf_str__(self):
-        if NUMERAL_ORIGINAL_SPELLING[0]:
-            return SymStr(self.src)
         if self.kind == "int":
             return SymStr(int_str(self.src))
         return SymStr(dec_norm_str(self.src) if self.normalized else dec_str(self.src))
@@ -438,8 +444,6 @@ class SymNum:
         if spec == "":
             return self.__vf_str__()
         if spec == "f" and self.kind == "dec":
-            if NUMERAL_ORIGINAL_SPELLING[0]:
-                return SymStr(self.src)
             return SymStr((dec_norm_str if self.normalized else dec_str)(self.src))
         raise EngineUnsupported("format(%s, %r)" % (self.kind, spec))
 
@@ -462,10 +466,12 @@ class SymNum:
         return SymNum("dec", self.src, False, self.val)
 
     def __eq__(self, o):
-        if isinstance(o, SymNum):
-            return SymBool(self.val == o.val)
-        if isinstance(o, (int, float, decimal.Decimal)) and not isinstance(o, bool):
-            return SymBool(self.val == _real_of(o))
+        if isinstance(o, (SymNum, SymFloat, Proxy)) or (isinstance(o, (int, float, decimal.Decimal)) and not isinstance(o, bool)):
+            try:
+                return SymBool(self.val == _real_of(o))
+            except EngineUnsupported:
+                if isinstance(o, Proxy):
+                    raise
         return False
 
     def __ne__(self, o):
@@ -491,6 +497,11 @@ class SymNum:
 class SymFloat:
     __vf_symbolic__ = True
 
+    def __getattr__(self, k):
+        if k.startswith("__") and k.endswith("__"):
+            raise AttributeError(k)
+        raise EngineUnsupported("%s.%s is not modelled" % (type(self).__name__, k))
+
     def __init__(self, val):
         self.val = val
 
@@ -507,6 +518,10 @@ class SymFloat:
 def _real_of(o):
     if isinstance(o, (SymNum, SymFloat)):
         return o.val
+    if isinstance(o, SymInt):
+        return z3.ToReal(o.t)
+    if isinstance(o, Proxy) and z3.is_real(o.t):
+        return o.t
     if isinstance(o, bool):
         raise EngineUnsupported("bool as number")
     if isinstance(o, int):
@@ -518,8 +533,27 @@ def _real_of(o):
     raise EngineUnsupported("number %r" % type(o))
 
 
-#: C02 runs with numerals printed in their original spelling ("up to the re-spelling allowed by C01")
-NUMERAL_ORIGINAL_SPELLING = [False]
+SPELLING_FUNCTIONS = ("dec_str", "dec_norm_str", "dec_f", "dec_norm_f", "int_str")
+
+
+def despell(term):
+    """C01/C02 are stated "up to numeral re-spelling": in a PRINTED text every spelling of a numeral (an
+    application of one of the uninterpreted spelling functions to the source numeral) is replaced by the source
+    numeral itself.  Sizes and positions are never rewritten, so a size computed from a re-spelled numeral is
+    not excused.  That the real spellings are numerically equal plain decimals is the bounded C01-N."""
+    todo = [term]
+    seen = set()
+    subs = []
+    while todo:
+        t = todo.pop()
+        if t.get_id() in seen:
+            continue
+        seen.add(t.get_id())
+        if z3.is_app(t):
+            if t.decl().name() in SPELLING_FUNCTIONS and t.num_args() == 1:
+                subs.append((t, t.arg(0)))
+            todo.extend(t.children())
+    return z3.substitute(term, *subs) if subs else term
 
 
 def _accept(s, ok_re, exc):
